@@ -68,6 +68,10 @@ def make_summands(kind, n):
         return [FLOATS[i % len(FLOATS)] for i in range(n)]
     if kind == "ndarray":
         return [np.array([FLOATS[i % 8], FLOATS[(i + 3) % 8], float(i)]) for i in range(n)]
+    if kind == "ndarray0d":
+        # zero-dimensional arrays: numpy turns their sums into numpy scalars (value, type and shape must follow the
+        # single-process tree)
+        return [np.array(FLOATS[i % len(FLOATS)]) for i in range(n)]
     if kind == "ndarray-mixed":
         # summands of different dtypes: the result (value AND dtype) must be that of the single-process tree
         dts = [np.float64, np.float32, np.int64, np.float64, np.float32, np.int64, np.float32, np.float64]
@@ -100,11 +104,11 @@ def canon(v):
 
 def cases(tier, seed):
     if tier == "quick":
-        specs = [("sym", 6, 3), ("float", 6, 3), ("ndarray", 4, 3), ("ndarray-mixed", 4, 3), ("field", 4, 3),
+        specs = [("sym", 6, 3), ("float", 6, 3), ("ndarray", 4, 3), ("ndarray-mixed", 4, 3), ("ndarray0d", 4, 3), ("field", 4, 3),
                  ("multifield", 3, 2), ("sym", 8, 4)]
         sym4 = True
     else:
-        specs = [("sym", 8, 4), ("float", 8, 4), ("ndarray", 6, 4), ("ndarray-mixed", 6, 4), ("field", 6, 3),
+        specs = [("sym", 8, 4), ("float", 8, 4), ("ndarray", 6, 4), ("ndarray-mixed", 6, 4), ("ndarray0d", 6, 4), ("field", 6, 3),
                  ("multifield", 4, 3), ("sym", 12, 5)]
     out = []
     for kind, nmax, kmax in specs:
